@@ -449,7 +449,7 @@ def C03(tier):
     jobs.append(djob('opts', 'wigm', {}, 4, 3, 2, 5 if quick else 6, optionsA=dict(rule='wigm', arithmetic='fixed', precision=4),
                      optionsB=dict(rule='wigm-prf'), budget=B, cfg='wigm fixed p=4 == wigm-prf', weight=5))
     # (2) reference transcriptions run in the same engine, symbolic tie order
-    for rule in ('wigm-prf', 'wigm-prf-batch', 'scotland', 'qpq', 'meek-prf'):
+    for rule in ('wigm-prf', 'wigm-prf-batch', 'scotland', 'mpls', 'cfer', 'cfer-batch', 'qpq', 'meek-prf'):
         slow = rule in ('qpq', 'meek-prf')
         for seats in (1, 2):
             jobs.append(grid.job(rule, {}, 3, seats, 3, (4 if slow else 6) + (0 if quick else 1), ['C03'], B, symtie=True, weight=4 if slow else 2))
@@ -463,12 +463,12 @@ def C03(tier):
                 '(2) a clause-by-clause transcription of the rule text quoted in the rule module (refs/*.py, under 150 lines each, scaled integers, explicit truncation) run in the same engine '
                 'on the same symbolic ballots and tie order; stage lists (elected / excluded / surplus transferred, order, quota, every tally after every stage to the last digit) compared '
                 'on every feasible path. Where droop is known to depart from the text the reference has a named switch; the check reports the departure as a known finding and anything else as a violation',
-                assumptions=COUNT_ASSUME + ['references exist for wigm-prf, wigm-prf-batch, scotland, meek-prf, qpq (Minneapolis and CfER: see not-covered note in DESIGN.md); the transcriptions are validated by the run itself: '
+                assumptions=COUNT_ASSUME + ['references exist for all eight statutory rule names (refs/wigm_prf.py, scotland.py, mpls.py - profiles without undeclared write-ins -, cfer.py, meek_prf.py, qpq.py); CfER threshold as droop reads it (5-place quotient plus 0.00001); the transcriptions are validated by the run itself: '
                                             'every disagreement is replayed concretely', 'why the last candidates are declared elected (rule 47 vs 52; B.1 vs C) is not compared',
                                             'QPQ: the quoted text is silent on the restart after an exclusion; the reference restarts as droop does',
                                             'Scottish rule 49(2)/51(2): when the most recent unequal stage separates only some of the tied candidates the reference keeps looking back over the whole tied set, as droop does'],
                 require_reach=['reference-run', 'matches-text', 'pair-compared'],
-                bounds=dict(candidates=[3, 4], ballots_max=6 if quick else 8, references=['refs/wigm_prf.py', 'refs/scotland.py', 'refs/meek_prf.py', 'refs/qpq.py'],
+                bounds=dict(candidates=[3, 4], ballots_max=6 if quick else 8, references=['refs/wigm_prf.py', 'refs/scotland.py', 'refs/mpls.py', 'refs/cfer.py', 'refs/meek_prf.py', 'refs/qpq.py'],
                             symbolic_tie_order=True))
 
 
